@@ -10,7 +10,7 @@ FILES = ['src/urcu-call-rcu-impl.h', 'src/urcu-bp.c', 'src/urcu.c', 'src/rculfha
 SRCS = [REPO + s for s in ('/src/wfcqueue.c', '/src/wfstack.c', '/src/compat_futex.c', '/src/compat_arch.c')]
 TRUSTED = ['Coq 8.16.1 kernel; no axioms', 'extraction: ExtrOcamlBasic only; ocaml/bparena_driver.ml, ocaml/fork_driver.ml', 'projection of scen_callrcu traces onto Fork.choice: tools/props/C16.py project_fork (trusted)', 'harness: seqdiff/bparena.c (prune operation), seqdiff/fork_callrcu.c, seqdiff/fork_bp.c (real fork(), real threads)',
            'modelled: helpers as phases idle / spliced / invoking / paused with queue, private batch and registration flag; the kernel\'s fork semantics (copy of memory, only the calling thread survives) and glibc\'s atfork/malloc '
-           'interplay are not modelled; the hash table across fork: creation / use / worker-side destruction of an auto-resizing table in parent and child (seqdiff/fork_lfht.c); a resize in flight at the fork is not exercised']
+           'interplay are not modelled; the hash table across fork: creation / use / worker-side destruction of an auto-resizing table in parent and child (seqdiff/fork_lfht.c); the fork bracket taken with the worker held inside a resize, in the first process and in a fork child (second generation)']
 FPROGS = ['C0C1FC2', 'C0HC1C2FC3', 'c0C2FC4/(r)', 'HC0C1FC2FC3', 'C0FC1/(r)(q)', 'Hc0C2C3FC5F']
 def project_fork(raw):
     """projection of a scen_callrcu trace with F operations onto Fork.choice (see ocaml/fork_driver.ml)"""
@@ -169,6 +169,7 @@ def run(ctx):
         rc, _, _ = sh('timeout -s KILL 300 %s %s > %s 2>&1 < /dev/null' % (exe, ' '.join(args), out), timeout=320)
         txt = open(out).read() if os.path.exists(out) else ''
         rounds = len(re.findall(r'^round \d+ .* ok$', txt, flags=re.M)); ctx.cov['evaluations'] += rounds; ctx.cov['distinct_nontrivial'] += rounds
+        if name == 'fork_lfht': ctx.cov['input_distribution'].setdefault('fork_lfht busy-worker brackets', []).append({'args': args, 'child_exercised': len(re.findall(r'^child round \d+ busy-worker bracket exercised', txt, flags=re.M)), 'parent': (re.findall(r'^parent busy-worker brackets exercised (\d+ of \d+)', txt, flags=re.M) or ['?'])[0]})
         bug = re.search(r'^BUG.*$', txt, flags=re.M)
         if rc != 0 or bug:
             v = bug.group(0) if bug else 'probe exited with %d: %s' % (rc, txt[-200:])
